@@ -74,6 +74,11 @@ let rec handler r =
         match k with
         | "el" -> let h = header_lines (unhex (word r)) in let l = list r in let d = num r in OExportList (p, h, l, d)
         | "et" -> let h = header_lines (unhex (word r)) in let t = table r in let d = list r in OExportTable (p, h, t, d)
+        | "ef" -> let h = header_lines (unhex (word r)) in let f = fun1 (parse_fexpr r) in let xs = list r in let d = list r in
+            OExportFunction (p, h, f, xs, d)
+        | "er" -> let h = header_lines (unhex (word r)) in let f = fun1 (parse_fexpr r) in let a = num r in let b = num r in
+            let steps = integer r in let d = list r in let lg = integer r <> 0 in
+            OExportFunctionRange (p, h, f, a, b, nat_of_int steps, d, lg)
         | "il" -> let d = num r in let ign = integer r in OImportList (p, d, nat_of_int ign)
         | "it" -> let d = list r in let ign = integer r in OImportTable (p, d, nat_of_int ign)
         | _ -> OCountLines p) in
